@@ -72,7 +72,7 @@ class World(object):
     def __init__(self):
         self.clock = 0
         self.ctime = {}
-        self.fault = None        # None | ("open",) | ("read",) | ("write", n, zf, crash)
+        self.fault = None        # None | ("open",) | ("read",) | ("write", n, zf, crash) | ("close",)
         self.opens = 0
 
     # ---- shims
@@ -130,6 +130,8 @@ class World(object):
             self.ctime[os.path.realpath(path)] = self.clock
             if flt and flt[0] == "write":
                 return TornWriter(f, flt)
+            if flt and flt[0] == "close":
+                return FailingCloser(f)
             return f
         if flt and flt[0] == "read":
             return FailingReader(f)
@@ -160,6 +162,20 @@ class TornWriter(object):
 
     def close(self):
         self.f.close()
+
+    def __getattr__(self, n):
+        return getattr(self.f, n)
+
+
+class FailingCloser(object):
+    """All the data reaches the file; close() then reports an error."""
+
+    def __init__(self, f):
+        self.f = f
+
+    def close(self):
+        self.f.close()
+        raise InjectedIOError("injected close failure")
 
     def __getattr__(self, n):
         return getattr(self.f, n)
@@ -245,7 +261,7 @@ def serialise(kind, obj):
 #   ("open", i, kind, dur)            ("put", fault, i, id, o)     ("get", fault, i, id)
 #   ("purge", i, id)  ("clear", i)    ("advance", d)
 #   ("foreign", version|None, [(name, ("ser", kind, o) | ("raw", bytes))])
-# fault: None | ("open",) | ("read",) | ("write", n, zf, crash)    (n: real byte offset)
+# fault: None | ("open",) | ("read",) | ("close",) | ("write", n, zf, crash)    (n: real byte offset)
 
 def c_fault(flt, reallen=None):
     if flt is None:
@@ -254,6 +270,8 @@ def c_fault(flt, reallen=None):
         return "FOpen"
     if flt[0] == "read":
         return "FRead"
+    if flt[0] == "close":
+        return "FClose"
     n = flt[1]
     toy = min(n, 4) if n < reallen else 5
     return "(FWrite %s %s)" % (cnat(toy), cbool(flt[2]))
@@ -394,7 +412,7 @@ def alphabet_shared():
         ops.append(("put", None, i, "a", 0))
         ops.append(("put", None, i, "a", 1))
         ops.append(("put", ("write", 7, i == 0, i == 1), i, "a", 1))
-        ops.append(("get", None, i, "a"))
+        ops.append(("get", None if i == 0 else ("read",), i, "a"))
         ops.append(("purge", i, "a"))
     ops.append(("clear", 0))
     ops.append(("advance", 10))
@@ -430,8 +448,10 @@ def random_fault_put(rng, kind, objects, o):
     r = rng.random()
     if r < 0.62:
         return None
-    if r < 0.72:
+    if r < 0.70:
         return ("open",)
+    if r < 0.75:
+        return ("close",)
     if kind == "KGcf":
         return None     # the raw FileCache has no format: a torn entry is outside the theorem
     n = len(serialise(kind, objects[kind][o]))
@@ -521,7 +541,7 @@ def gen_histories(ck, objects, version):
     pre, alpha = alphabet_mixed()
     for seq in itertools.product(alpha, repeat=3 if thorough else 2):
         hs.append(("exhaustive-mixed", list(pre) + list(seq)))
-    for _ in range(8000 if thorough else 1500):
+    for _ in range(8000 if thorough else 1200):
         hs.append(("random", random_history(rng, objects, 12, version)))
     return hs
 
@@ -992,17 +1012,18 @@ def sweep_members(ck):
 
 
 def sweep_offsets(ck, n, full):
-    if full or n <= 1000:
+    if full or n <= 900:
         return list(range(n + 1))
-    offs = set(range(0, 120)) | set(range(n - 120, n + 1))
-    offs |= set(range(0, n, max(1, n // 150)))
-    offs |= set(ck.rng.randrange(n) for _ in range(150))
+    offs = set(range(0, 64)) | set(range(n - 64, n + 1))
+    offs |= set(range(0, n, max(1, n // 90)))
+    offs |= set(ck.rng.randrange(n) for _ in range(90))
     return sorted(offs)
 
 
 def check_sweep(ck):
     import suds.cache
     cases, meta = [], []
+    ocases, ometa = [], []
     for mi, (shape, nops, style) in enumerate(sweep_members(ck)):
         docs, ops, tns_types = family_member(shape, nops, style)
         member = (docs, ops, style, tns_types)
@@ -1010,6 +1031,7 @@ def check_sweep(ck):
             loc = os.path.join(ROOT, "sweep%d%s%d" % (mi, kind, pol))
             build_client(member, loc, kind, 0, pol, "base")
             cls = suds.cache.ObjectCache if kind == "KPx" else suds.cache.DocumentCache
+            entries = []
             for fn in sorted(os.listdir(loc)):
                 if fn == "version":
                     continue
@@ -1019,8 +1041,9 @@ def check_sweep(ck):
                 id = fn[len("suds-"):].rsplit(".", 1)[0]
                 cache = cls(loc)
                 orig = cache.get(id)
+                entries.append((fn, id, data, orig))
 
-                def classify(call):
+                def classify(call, orig=orig):
                     try:
                         got = call()
                     except Exception:
@@ -1042,7 +1065,7 @@ def check_sweep(ck):
                             f.write(data[:off] + (b"\0" * (len(data) - off) if zf else b""))
                         first = classify(lambda: cache.get(id))
                         exists = os.path.exists(path)
-                        second = classify(lambda: cls(loc).get(id))
+                        second = classify(lambda: cache.get(id))
                         cases.append("(mkscase %s %s %s %s %s %s %s)" % (kind, cN(len(data)), cN(off), cbool(zf),
                                                                       first, cbool(exists), second))
                         meta.append((shape, nops, style, kind, pol, fn, len(data), off, zf, first, exists, second))
@@ -1050,9 +1073,28 @@ def check_sweep(ck):
                         ck.count("sweep:%s:%s" % (kind, "wsdl" if fn.endswith("wsdl.px") else "document"))
                 with open(path, "wb") as f:
                     f.write(data)
+            # two writers racing on one entry, in-place whole writes: the new (shorter) entry
+            # followed by the tail of the old (longer) one -- hypothesis H3 of interleaved_gets_safe
+            for (fa, ida, da, oa) in entries:
+                for (fb, idb, db, ob) in entries:
+                    if len(da) >= len(db):
+                        continue
+                    path = os.path.join(loc, fa)
+                    with open(path, "wb") as f:
+                        f.write(da + db[len(da):])
+                    r = classify(lambda: cls(loc).get(ida), oa)
+                    ocases.append(r)
+                    ometa.append((shape, nops, style, kind, pol, fa, fb, r))
+                    ck.seen(("overlay", shape, nops, style, kind, pol, fa, fb), nontrivial=True)
+                    ck.count("overlay:%s:%s" % (kind, r))
+                    with open(path, "wb") as f:
+                        f.write(da)
             shutil.rmtree(loc, ignore_errors=True)
     res = ck.run_cases("sweep", PRE, "scase", cases, ["c11_sweep_agrees", "c11_sweep_spec_ok"], shard=2500)
-    return meta, set(res["c11_sweep_agrees"]), set(res["c11_sweep_spec_ok"])
+    ores = ck.run_cases("overlay", PRE, "sweep_res", ocases, ["c11_overlay_spec_ok"]) if ocases else \
+        {"c11_overlay_spec_ok": []}
+    return meta, set(res["c11_sweep_agrees"]), set(res["c11_sweep_spec_ok"]), \
+        [ometa[i] for i in ores["c11_overlay_spec_ok"]]
 
 
 # ---- client scenarios
@@ -1388,7 +1430,14 @@ def _run(ck, version):
 
     ck.extra["phase_seconds"] = {"proof+histories": round(__import__("time").time() - ck.t0, 1)}
     # 2. torn-write sweep
-    meta, sw_model, sw_spec = check_sweep(ck)
+    meta, sw_model, sw_spec, overlay_bad = check_sweep(ck)
+    for m in overlay_bad[:1]:
+        ck.failing_input("C11:overwritten-entry-yields-other-object" if m[7] == "SOther" else
+                         "C11:overwritten-entry-lookup-raises",
+                         "lookup of a %s entry (%s) written whole over a longer one (%s) %s" % (
+                             m[3], m[5], m[6], "returned another object" if m[7] == "SOther" else "raised"),
+                         {"kind": "overlay", "member": list(m[:3]), "cache": m[3], "policy": m[4],
+                          "file": m[5], "over": m[6], "observed": m[7]})
     for i in sorted(sw_spec)[:1]:
         m = meta[i]
         what = ("raised" if "SRaised" in (m[9], m[11]) else
